@@ -175,6 +175,19 @@ theorem readdir_closing_native_fd_counterexample :
 
 /-! ## closed and never-issued numbers -/
 
+/-- The source validates the directory descriptor of EVERY path_* import unconditionally — lookup
+    (`wasiFileDescriptorGet`, EBADF) and NULL-path test, before the guest path is looked at — which
+    is the shape `pathPrologue` / the path calls of the model have.  (Regenerated per function; a
+    path-dependent skip of the lookup, e.g. for absolute guest paths, makes this fail.) -/
+theorem every_path_call_validates_dirfd :
+    ∀ x ∈ Gen.Wasi.pathCallsValidateDirfd, x.2 = true := by decide
+
+/-- … and all eight path_* imports are covered by that extraction -/
+theorem path_call_facts_complete :
+    Gen.Wasi.pathCallsValidateDirfd.map (·.1) =
+      ["path_open", "path_filestat_get", "path_rename", "path_unlink_file", "path_remove_directory",
+       "path_create_directory", "path_symlink", "path_readlink"] := by decide
+
 /-- After a successful fd_close(n), at any later point of any history, every call that takes n
     (incl. a second fd_close, fd_readdir, path_open with n as directory, both arguments of
     path_rename, fd_seek with any whence) returns EBADF and changes nothing — no guest memory, no
